@@ -70,12 +70,22 @@ pub uninterp spec fn rs_same(a: ResourceSet, b: ResourceSet) -> bool;
 pub assume_specification [ResourceSet::difference] (a: &ResourceSet, b: &ResourceSet) -> (r: ResourceDiff) ensures diff_empty(r) == rs_same(*a, *b);
 pub uninterp spec fn diff_empty(d: ResourceDiff) -> bool;
 pub assume_specification [ResourceDiff::is_empty] (d: &ResourceDiff) -> (r: bool) ensures r == diff_empty(*d);
-pub assume_specification [Roas::create_updates] (x: &Roas, a: &Routes, k: &CertifiedKey, c: &Config, s: &KrillSigner) -> (r: KrillResult<RoaUpdates>);
-pub assume_specification [AspaObjects::create_updates] (x: &AspaObjects, a: &AspaDefinitions, k: &CertifiedKey, c: &Config, s: &KrillSigner) -> (r: KrillResult<AspaObjectsUpdates>);
-pub assume_specification [BgpSecCertificates::create_updates] (x: &BgpSecCertificates, a: &BgpSecDefinitions, k: &CertifiedKey, c: &Config, s: &KrillSigner) -> (r: KrillResult<BgpSecCertificateUpdates>);
-pub assume_specification [RoaUpdates::is_empty] (x: &RoaUpdates) -> (r: bool);
-pub assume_specification [AspaObjectsUpdates::is_empty] (x: &AspaObjectsUpdates) -> (r: bool);
-pub assume_specification [BgpSecCertificateUpdates::is_empty] (x: &BgpSecCertificateUpdates) -> (r: bool);
+/// what an update set was derived from: the configuration and the certified key (ghost; derivation itself: units c01_*)
+pub uninterp spec fn roas_from(u: RoaUpdates) -> (Routes, CertifiedKey);
+pub uninterp spec fn aspas_from(u: AspaObjectsUpdates) -> (AspaDefinitions, CertifiedKey);
+pub uninterp spec fn bgpsec_from(u: BgpSecCertificateUpdates) -> (BgpSecDefinitions, CertifiedKey);
+pub assume_specification [Roas::create_updates] (x: &Roas, a: &Routes, k: &CertifiedKey, c: &Config, s: &KrillSigner) -> (r: KrillResult<RoaUpdates>)
+    ensures r is Ok ==> roas_from(r->Ok_0) == (*a, *k);
+pub assume_specification [AspaObjects::create_updates] (x: &AspaObjects, a: &AspaDefinitions, k: &CertifiedKey, c: &Config, s: &KrillSigner) -> (r: KrillResult<AspaObjectsUpdates>)
+    ensures r is Ok ==> aspas_from(r->Ok_0) == (*a, *k);
+pub assume_specification [BgpSecCertificates::create_updates] (x: &BgpSecCertificates, a: &BgpSecDefinitions, k: &CertifiedKey, c: &Config, s: &KrillSigner) -> (r: KrillResult<BgpSecCertificateUpdates>)
+    ensures r is Ok ==> bgpsec_from(r->Ok_0) == (*a, *k);
+pub uninterp spec fn roa_upd_empty(u: RoaUpdates) -> bool;
+pub uninterp spec fn aspa_upd_empty(u: AspaObjectsUpdates) -> bool;
+pub uninterp spec fn bgpsec_upd_empty(u: BgpSecCertificateUpdates) -> bool;
+pub assume_specification [RoaUpdates::is_empty] (x: &RoaUpdates) -> (r: bool) ensures r == roa_upd_empty(*x);
+pub assume_specification [AspaObjectsUpdates::is_empty] (x: &AspaObjectsUpdates) -> (r: bool) ensures r == aspa_upd_empty(*x);
+pub assume_specification [BgpSecCertificateUpdates::is_empty] (x: &BgpSecCertificateUpdates) -> (r: bool) ensures r == bgpsec_upd_empty(*x);
 /// ASSUMED resource algebra: sets that `difference` calls equal contain the same sets
 #[verifier::external_body] pub proof fn axiom_same_contains(a: ResourceSet, b: ResourceSet, x: ResourceSet)
     requires rs_same(a, b), rs_contains(b, x) ensures rs_contains(a, x) {}
@@ -91,6 +101,16 @@ pub open spec fn within(c: ChildCertificates, r: ResourceSet) -> bool {
 }
 pub open spec fn is_child_update(e: CertAuthEvent, name: ResourceClassName, c: ChildCertificates, new: ResourceSet) -> bool {
     match e { CertAuthEvent::ChildCertificatesUpdated { resource_class_name, updates } => resource_class_name == name && shrink_post(c, updates, new), _ => false }
+}
+/// every ROA / ASPA / BGPsec update event of the result was derived from the configuration handed in, under a key whose
+/// certificate is the one just received
+pub open spec fn objects_rederived(evs: Seq<CertAuthEvent>, routes: Routes, aspas: AspaDefinitions, bgpsecs: BgpSecDefinitions, rcvd: ReceivedCert) -> bool {
+    forall |i: int| 0 <= i < evs.len() ==> match #[trigger] evs[i] {
+        CertAuthEvent::RoasUpdated { updates, .. } => roas_from(updates).0 == routes && roas_from(updates).1.incoming_cert == rcvd,
+        CertAuthEvent::AspaObjectsUpdated { updates, .. } => aspas_from(updates).0 == aspas && aspas_from(updates).1.incoming_cert == rcvd,
+        CertAuthEvent::BgpSecCertificatesUpdated { updates, .. } => bgpsec_from(updates).0 == bgpsecs && bgpsec_from(updates).1.incoming_cert == rcvd,
+        _ => true,
+    }
 }
 pub open spec fn has_child_update(s: Seq<CertAuthEvent>, name: ResourceClassName, c: ChildCertificates, new: ResourceSet) -> bool {
     exists |i: int| 0 <= i < s.len() && is_child_update(#[trigger] s[i], name, c, new)
@@ -123,6 +143,7 @@ pub open spec fn has_child_update(s: Seq<CertAuthEvent>, name: ResourceClassName
                         CertAuthEvent::CertificateReceived { resource_class_name, ki, rcvd_cert: c } => resource_class_name == self.name && ki == csr_key(rcvd_cert.csr_info) && c == rcvd_cert,
                         _ => false })'''),
                  ('for_current_key_only', 'r is Ok ==> csr_key(rcvd_cert.csr_info) == current_key.key_id'),
+                 ('objects_rederived_from_configuration_under_the_new_certificate', 'r is Ok ==> objects_rederived(r->Ok_0@, *all_routes, *all_aspas, *all_bgpsecs, rcvd_cert)'),
                  ('overclaiming_children_handled_in_same_event_set', f'''r is Ok ==> has_child_update(r->Ok_0@, self.name, self.certificates, {new})
                         || within(self.certificates, {new})'''),
              ],
